@@ -10,7 +10,10 @@ every explored state).
               Vec) and under both vendors;
       bytes : FDE instruction *bytes* over a class alphabet (decoder);
       grid  : alignment factors x address sizes x 64-bit boundary operands;
-      deep  : directed programs reaching 192 rules / 4 rows exactly and +1.
+      deep  : directed programs reaching 192 rules / 4 rows exactly and +1;
+      eh    : .eh_frame "zR" CIEs over the DW_EH_PE encoding bytes (format x
+              application x indirect, valid / invalid / omit, with / without base
+              addresses) with DW_CFA_set_loc operands in that encoding.
     Each state prints the encoded .debug_frame and the allowed rows / result;
     gvh-cfiexec replays them on gimli.
  V: gvh-cfiexec records random long programs (64-bit operands, address sizes
@@ -66,8 +69,10 @@ def judge(ctx, mode, case, obs, storage, exp, o_rows, o_fin, exp_rows):
     efin = exp["fin"]
     if k is None and o_fin == efin:
         return True
+    both_parse = str(efin).startswith("parse:") and str(o_fin).startswith("parse:")
     if k is None and efin != "end" and o_fin not in ("end", None) and efin not in FIXED and o_fin not in FIXED \
-            and not str(o_fin).startswith(("parse:", "row-after-end", "err-after-end")):
+            and (both_parse or not str(o_fin).startswith(("parse:", "row-after-end", "err-after-end")))\
+            and (both_parse or not str(efin).startswith("parse:")):
         # an error was required and an error was reported; the property does not fix which
         ctx.drift.append({"mode": mode, "storage": storage, "expected_error": efin, "observed_error": o_fin,
                           "sec": case["sec"]})
